@@ -13,6 +13,7 @@ import (
 	"github.com/buildbarn/bb-storage/pkg/blobstore/local"
 	"github.com/buildbarn/bb-storage/pkg/clock"
 	"github.com/buildbarn/bb-storage/pkg/digest"
+	"github.com/buildbarn/bb-storage/pkg/eviction"
 	pb "github.com/buildbarn/bb-storage/pkg/proto/blobstore/local"
 	"github.com/buildbarn/bb-storage/pkg/random"
 	"github.com/buildbarn/bb-storage/pkg/verifshim/vsched"
@@ -38,9 +39,13 @@ type Geometry struct {
 	GetAttempts     uint32
 	PutAttempts     int
 	RawReads        bool // non-validating read buffer factory: wrong bytes are returned, not masked
-	DataGates       bool
-	IndexGates      bool
-	DirGates        bool
+	// IntegrityCache puts the repository's ValidationCachingReadBufferFactory (the
+	// data_integrity_validation_cache option of blocks_on_block_device) between the tracking decorator
+	// and the CAS/AC factory: a repeated read of a validated object is served without checksumming.
+	IntegrityCache bool
+	DataGates      bool
+	IndexGates     bool
+	DirGates       bool
 	// Persistence timing (virtual).
 	MinEpochInterval time.Duration
 	ErrorRetry       time.Duration
@@ -54,7 +59,7 @@ func (g Geometry) BlockCount() int { return g.Spare + g.Old + g.Current + g.New 
 
 func (g Geometry) String() string {
 	return fmt.Sprintf("S%dxB%d o%dc%dn%dp%d mut=%v ac=%v hier=%v pers=%v mem=%v idxdev=%v slots=%d/%d/%d raw=%v",
-		g.SectorSize, g.SectorsPerBlock, g.Old, g.Current, g.New, g.Spare, g.Mutable, g.AC, g.Hierarchical, g.Persistent, g.InMemoryBlocks, g.IndexOnDevice, g.IndexSlots, g.GetAttempts, g.PutAttempts, g.RawReads)
+		g.SectorSize, g.SectorsPerBlock, g.Old, g.Current, g.New, g.Spare, g.Mutable, g.AC, g.Hierarchical, g.Persistent, g.InMemoryBlocks, g.IndexOnDevice, g.IndexSlots, g.GetAttempts, g.PutAttempts, g.RawReads) + map[bool]string{true: " integritycache", false: ""}[g.IntegrityCache]
 }
 
 // Media is everything that survives a restart.
@@ -157,18 +162,18 @@ func (VClock) NewTicker(d time.Duration) (clock.Ticker, <-chan time.Time) {
 
 // Store is one running instance of the assembled local store.
 type Store struct {
-	Geo    Geometry
-	Media  *Media
-	BA     blobstore.BlobAccess
-	Lock   *vsync.RWMutex
-	Alloc  *TrackingAllocator
-	LBM    *local.OldCurrentNewLocationBlobMap
-	PBL    *local.PersistentBlockList
-	Syncer *local.PeriodicSyncer
-	RBF    *TrackingRBF
-	Errors *ErrorLog
+	Geo        Geometry
+	Media      *Media
+	BA         blobstore.BlobAccess
+	Lock       *vsync.RWMutex
+	Alloc      *TrackingAllocator
+	LBM        *local.OldCurrentNewLocationBlobMap
+	PBL        *local.PersistentBlockList
+	Syncer     *local.PeriodicSyncer
+	RBF        *TrackingRBF
+	Errors     *ErrorLog
 	StateStore *TrackingStateStore
-	KLM    local.KeyLocationMap
+	KLM        local.KeyLocationMap
 	// InitialBlocks is the number of blocks re-attached from persistent state.
 	InitialBlocks int
 	HashInit      uint64
@@ -210,6 +215,20 @@ func OpenWith(g Geometry, m *Media, opt OpenOptions) *Store {
 	return s
 }
 
+// withIntegrityCache wraps base as new_blob_access.go's newCachedReadBufferFactory does (same key format
+// rule, LRU, 16 entries, one virtual hour). It is applied inside the tracking decorator so that readers
+// of cached (unvalidated) reads are still accounted for.
+func withIntegrityCache(g Geometry, base blobstore.ReadBufferFactory) blobstore.ReadBufferFactory {
+	if !g.IntegrityCache {
+		return base
+	}
+	kf := digest.KeyWithInstance
+	if !g.Hierarchical && !g.AC {
+		kf = digest.KeyWithoutInstance
+	}
+	return blobstore.NewValidationCachingReadBufferFactory(base, digest.NewExistenceCache(VClock{}, kf, 16, time.Hour, eviction.NewLRUSet[string]()))
+}
+
 // openHarness mirrors new_blob_access.go (case Local) by hand.
 func openHarness(g Geometry, m *Media) *Store {
 	random.CryptoThreadSafeGenerator = m.Rand
@@ -224,6 +243,7 @@ func openHarness(g Geometry, m *Media) *Store {
 	if g.RawReads {
 		base = rawFactory{}
 	}
+	base = withIntegrityCache(g, base)
 	s.RBF = &TrackingRBF{Base: base}
 
 	digestKeyFormat := digest.KeyWithInstance
@@ -327,11 +347,11 @@ func (s *Store) startSyncers(ctx context.Context, onPutLoopExit func()) {
 // TrackingStateStore records the state written and when.
 type TrackingStateStore struct {
 	FirstRead *pb.PersistentState
-	Base    local.PersistentStateStore
-	Written []*pb.PersistentState // states whose write returned nil
-	Starts  []time.Time
-	Ends    []time.Time
-	Failed  int
+	Base      local.PersistentStateStore
+	Written   []*pb.PersistentState // states whose write returned nil
+	Starts    []time.Time
+	Ends      []time.Time
+	Failed    int
 }
 
 // ReadPersistentState forwards.
@@ -374,14 +394,15 @@ func (rawFactory) NewBufferFromReaderAt(d digest.Digest, r buffer.ReadAtCloser, 
 
 // TrackingRBF wraps a ReadBufferFactory: counts open/closed readers and integrity verdicts.
 type TrackingRBF struct {
-	Base          blobstore.ReadBufferFactory
-	Opened        int
-	Closed        int
-	DoubleClosed  int
-	Invalid       int // integrity callbacks with dataIsValid=false
-	Valid         int
-	OpenReaders   map[int]string
-	seq           int
+	Base           blobstore.ReadBufferFactory
+	Opened         int
+	Closed         int
+	DoubleClosed   int
+	ReadAfterClose int
+	Invalid        int // integrity callbacks with dataIsValid=false
+	Valid          int
+	OpenReaders    map[int]string
+	seq            int
 	// current is the block whose Get is in progress (set by trackedBlock.Get) so that the
 	// reader can be attributed to a region.
 	current *trackedBlock
@@ -393,6 +414,15 @@ type trackedReader struct {
 	id     int
 	closed bool
 	block  *trackedBlock
+}
+
+// ReadAt flags reads through a reader that was already closed: the block reference it pinned is gone, so
+// the region may have been handed out again.
+func (t *trackedReader) ReadAt(p []byte, off int64) (int, error) {
+	if t.closed {
+		t.f.ReadAfterClose++
+	}
+	return t.ReadAtCloser.ReadAt(p, off)
 }
 
 func (t *trackedReader) Close() error {
@@ -465,22 +495,22 @@ type Region struct {
 
 // TrackingAllocator decorates the real BlockAllocator with a region ownership monitor.
 type TrackingAllocator struct {
-	Base      local.BlockAllocator
-	Geo       Geometry
-	Dev       *SimBlockDevice
-	Regions   map[int64]*Region
-	NewBlocks int // successful NewBlock calls
+	Base             local.BlockAllocator
+	Geo              Geometry
+	Dev              *SimBlockDevice
+	Regions          map[int64]*Region
+	NewBlocks        int // successful NewBlock calls
 	NewBlockFailures int
 	// FailNewBlock is a fault budget: while > 0 each NewBlock may fail (choice point).
 	FailNewBlock int
-	Violations []string
-	Reattached int // successful NewBlockAtLocation calls (restart)
-	Releases   int // Block.Release calls made by the block list (volatile: pops)
+	Violations   []string
+	Reattached   int         // successful NewBlockAtLocation calls (restart)
+	Releases     int         // Block.Release calls made by the block list (volatile: pops)
 	ReleaseTimes []time.Time // virtual time of each such call
 	// LastWrittenState returns the most recent durably written state (persistent only).
 	LastWrittenState func() *pb.PersistentState
-	RBF       *TrackingRBF
-	blocks    []*trackedBlock
+	RBF              *TrackingRBF
+	blocks           []*trackedBlock
 }
 
 // NewTrackingAllocator wraps base.
